@@ -39,7 +39,11 @@ type c04File struct {
 	Chunk  int    `json:"chunk"`  // nominal chunk size
 	Irreg  bool   `json:"irreg"`  // irregular chunk sizes
 	Nested bool   `json:"nested"` // group chunks under nested bytes schemas
-	Salt   uint64 `json:"salt"`
+	// NestTail: the nested group covers the file's last chunks instead of its
+	// middle, so that with a lowered zip cap its schema blobs belong to a
+	// later zip than the first
+	NestTail bool   `json:"nestTail,omitempty"`
+	Salt     uint64 `json:"salt"`
 	// SameAs >= 0: identical content as file SameAs under another name
 	SameAs int `json:"sameAs"`
 	// Repeat: repeat the first chunk's content several times inside the file
@@ -144,10 +148,17 @@ func buildC04(cc *c04Config) *c04World {
 			off += n
 		}
 		if f.Nested && len(parts) >= 4 {
-			// group the middle chunks under a bytes schema, and half of those
-			// under a second level
-			mid := parts[1 : len(parts)-1]
+			// group chunks under a bytes schema, and half of those under a
+			// second level: the middle chunks, or (NestTail) the last ones
+			lo, hi := 1, len(parts)-1
+			if f.NestTail {
+				lo, hi = len(parts)/2+1, len(parts)
+			}
+			mid := parts[lo:hi]
 			half := len(mid) / 2
+			if half == 0 {
+				half = 1
+			}
 			inner := schemaBlob("bytes", "", mid[:half])
 			ii := add(inner)
 			info.schemaIdx = append(info.schemaIdx, ii)
@@ -163,7 +174,10 @@ func buildC04(cc *c04Config) *c04World {
 			for _, p := range mid {
 				outerSize += p.Size
 			}
-			parts = []partJSON{parts[0], {BytesRef: outer.Ref.String(), Size: outerSize}, parts[len(parts)-1]}
+			np := append([]partJSON{}, parts[:lo]...)
+			np = append(np, partJSON{BytesRef: outer.Ref.String(), Size: outerSize})
+			np = append(np, parts[hi:]...)
+			parts = np
 		}
 		fb := schemaBlob("file", f.Name, parts)
 		info.fileIdx = add(fb)
@@ -198,7 +212,8 @@ func genC04(tier string, run int, r *simcore.Rand) *harness.Plan {
 			f.Chunk /= 2
 		}
 		f.Irreg = r.Bool(0.4)
-		f.Nested = r.Bool(0.4)
+		f.Nested = r.Bool(0.45)
+		f.NestTail = r.Bool(0.5)
 		f.Repeat = r.Bool(0.2)
 		if i == 1 && r.Bool(0.4) {
 			f = cc.Files[0]
@@ -521,9 +536,14 @@ func execC04(rc *harness.RunCtx, p *harness.Plan, cfg *Config) *harness.Outcome 
 			return nil, nil, fmt.Sprint("build: ", herr, berr)
 		}
 		mk := func(i int, class, msg, where string) *harness.Violation {
-			return harness.Viol(class, class+"@blobpacked", fmt.Sprintf("blobpacked(zipMax=%d) files=%v, op #%d %s%s: %s", cc.ZipMax, fileNames(cc), i, opStr(ops[i]), where, msg), i)
+			sig := class + "@blobpacked"
+			if strings.Contains(msg, "looked like duplicates at first") {
+				sig = class + "|reindex-hasDups-panic@blobpacked"
+			}
+			return harness.Viol(class, sig, fmt.Sprintf("blobpacked(zipMax=%d) files=%v, op #%d %s%s: %s", cc.ZipMax, fileNames(cc), i, opStr(ops[i]), where, msg), i)
 		}
 		mutCalls = make([]int, len(ops))
+		afterCrash := false
 		for i, op := range ops {
 			env.BeginOp(i)
 			t0 := len(env.Trace)
@@ -575,6 +595,7 @@ func execC04(rc *harness.RunCtx, p *harness.Plan, cfg *Config) *harness.Outcome 
 						if v := s.model.Check(rop, res, false); len(v) > 0 {
 							return mk(i, "after-crash:"+classOf(v[0]), v[0], where), nil, ""
 						}
+						r.removed[s.pool[victim].Ref.String()] = true
 						for _, fop := range []sim.Op{{Kind: "fetch", B: []int{victim}}, {Kind: "stat", B: []int{victim}}, {Kind: "enum", Limit: 100000}} {
 							res, herr := s.do(ctx, fop)
 							if herr != nil {
@@ -585,8 +606,15 @@ func execC04(rc *harness.RunCtx, p *harness.Plan, cfg *Config) *harness.Outcome 
 							}
 						}
 					}
-					r.release()
-					return nil, nil, ""
+					if len(cc.Files) < 2 {
+						r.release()
+						return nil, nil, ""
+					}
+					// a second file follows: go on with the history (the same
+					// bytes may be packed again under another name), then a
+					// recovery and a final sweep
+					afterCrash = true
+					continue
 				}
 				if v := s.model.Check(sop, res, false); len(v) > 0 {
 					return mk(i, classOf(v[0]), v[0], ""), nil, ""
@@ -634,6 +662,24 @@ func execC04(rc *harness.RunCtx, p *harness.Plan, cfg *Config) *harness.Outcome 
 				if cl, msg := r.sweep(ctx, "check"); cl != "" {
 					return mk(i, cl, msg, ""), nil, ""
 				}
+			}
+		}
+		if afterCrash {
+			mode := []string{"fast", "full"}[crashAt%2]
+			last := len(ops) - 1
+			mkEnd := func(class, msg string) *harness.Violation {
+				return mk(last, class, msg, fmt.Sprintf(" [after a process death before mutating call #%d of op #%d, the rest of the history, and a restart with recovery=%s]", crashAt, crashOp, mode))
+			}
+			if msg := r.restart(mode, false, true); msg != "" {
+				return mkEnd("recover-failed", msg), nil, ""
+			}
+			for ref := range r.removed {
+				if s.model.State[ref] == sim.Absent {
+					s.model.State[ref] = sim.Maybe
+				}
+			}
+			if cl, msg := r.sweep(ctx, "end-after-crash"); cl != "" {
+				return mkEnd(cl, msg), nil, ""
 			}
 		}
 		s.task(func() { s.world.Restart(true) })
